@@ -125,6 +125,13 @@ def make_programs(rng, n):
     for i in range(n // 5):
         base, cur, src, o = passable(rng, [0])
         out.append((base, ("un", o, (src, True, rng.random() < 0.3, False), base), ("un", o, mp.DEFAULT, base), i % 3 != 0))
+    # the shapes of multiprog.forced_backtrack_cases (partial projections below operations that assumed a full move,
+    # calculations re-creating hidden columns, commutators that modify the existing operation, no-op completions)
+    for p in mp.forced_backtrack_cases(rng, max(n // 3, 60)):
+        if p[0] == "un":
+            out.append((p[3], p, ("un", p[1], mp.DEFAULT, p[3])))
+        elif p[0] == "join":
+            out.append((p[4], p, ("join", p[1], False, True, p[4], p[5])))
     combos = [(b, m, k) for b in ("sort", "slice", "sel", "dedup") for m in ("slice", "dedup", "sort", "sel") for k in (0, 1)]
     for i in range(max(n // 4, len(combos))):
         counter = [0]
